@@ -209,7 +209,7 @@ def _shard_worker(args):
     t0 = time.time()
     budget = sub.budget[tier] * float(os.environ.get('VERIF_BUDGET_SCALE', '1'))
     ppath = None
-    if getattr(mod, 'HANG_WATCH', None):
+    if os.environ.get('VERIF_NO_WATCHDOG') != '1':
         ppath = _progress_path(pid, sub.name, shard)
         _PROGRESS['fd'] = os.open(ppath, os.O_CREAT | os.O_RDWR | os.O_TRUNC, 0o644)
     try:
@@ -457,7 +457,10 @@ def run_check(modname, tier, seed, only_sub=None):
     results = []
     if jobs:
         mpctx = multiprocessing.get_context('fork')
-        watch = getattr(mod, 'HANG_WATCH', None)
+        # every check is watched from outside; only for modules that declare HANG_WATCH is a CPU-bound hang a violation of
+        # their property, for the others it makes the result inconclusive instead of blocking for ever
+        declared = getattr(mod, 'HANG_WATCH', None)
+        watch = declared or 300
         hung = {}
         with mpctx.Pool(min(nproc, len(jobs))) as pool:
             pending = {j: pool.apply_async(_shard_worker, (j,)) for j in jobs}
@@ -470,8 +473,6 @@ def run_check(modname, tier, seed, only_sub=None):
                 if not pending:
                     break
                 time.sleep(0.2)
-                if not watch:
-                    continue
                 for j in list(pending):
                     pp = _progress_path(pid, j[1], j[4])
                     try:
@@ -500,7 +501,10 @@ def run_check(modname, tier, seed, only_sub=None):
                         del pending[j]
             pool.terminate()
         for j, (case, msg) in hung.items():
-            violations.append((j[1], case, 'hang:cpu-bound', msg))
+            if declared:
+                violations.append((j[1], case, 'hang:cpu-bound', msg))
+            else:
+                harness_errors.append(f'{j[1]} shard {j[4]}: {msg}; case {json.dumps(case, default=repr)[:600]}')
     results.sort(key=lambda r: (r['sub'], r['shard']))
 
     evals = 0
